@@ -6,7 +6,9 @@ import collections
 import copy
 import json
 
+from .. import behave as BH
 from .. import build as B
+from .. import harness as H
 from .. import gen as G
 from .. import model as M
 from .. import shapes as S
@@ -67,6 +69,104 @@ def reduce_to(td, keep):
     return r
 
 
+# ---- behavioural side: the impl of t must also BEHAVE the same whatever the other traits' attributes are (an impl that
+# calls a sibling impl at run time has identical tokens in every configuration)
+BEHAVE_TRAITS = ["PartialEq", "PartialOrd", "Ord", "Hash", "Debug", "Clone"]
+RT = S.RT
+TRANSCRIPT = {
+    "PartialEq": ("X: ::core::cmp::PartialEq", "for i in 0..n { for j in 0..n { let (a, b) = (mk(i, 0), mk(j, 1)); s.push(if a == b { '1' } else { '0' }); s.push(if a != b { '1' } else { '0' }); } }"),
+    "PartialOrd": ("X: ::core::cmp::PartialOrd", "for i in 0..n { for j in 0..n { let (a, b) = (mk(i, 0), mk(j, 1)); s.push_str(&format!(\"{:?},{}{}{}{};\", ::core::cmp::PartialOrd::partial_cmp(&a, &b), (a < b) as u8, (a <= b) as u8, (a > b) as u8, (a >= b) as u8)); } }"),
+    "Ord": ("X: ::core::cmp::Ord", "for i in 0..n { for j in 0..n { let (a, b) = (mk(i, 0), mk(j, 1)); s.push_str(&format!(\"{:?};\", ::core::cmp::Ord::cmp(&a, &b))); } }"),
+    "Hash": ("X: ::core::hash::Hash", "for i in 0..n { s.push_str(&%srec_hash(&mk(i, 0))); s.push('|'); }" % RT),
+    "Debug": ("X: ::core::fmt::Debug", "for i in 0..n { let a = mk(i, 0); s.push_str(&format!(\"{:?}|{:#?}|\", a, a)); }"),
+    "Clone": ("X: ::core::clone::Clone + %sFp" % RT, "for i in 0..n { let a = mk(i, 0); let c = ::core::clone::Clone::clone(&a); s.push_str(&%sFp::fp(&c)); let mut d = mk((i + 1) %% n, 1); ::core::clone::Clone::clone_from(&mut d, &a); s.push_str(&%sFp::fp(&d)); s.push('|'); }" % (RT, RT)),
+}
+
+
+def behave_case(seed, k):
+    rng = rng_for(seed, PROP, "behave", k)
+    t = rng.choice(BEHAVE_TRAITS)
+    ts = G.normalise_traits([t] + rng.sample(["Debug", "Clone", "PartialEq", "Eq", "PartialOrd", "Ord", "Hash"], rng.randint(2, 5)))
+    rng.shuffle(ts)
+    o = G.Opts(p_attr=rng.choice([0.35, 0.6, 0.9]), max_fields=4, max_variants=3, bounds=False, p_partial=0.3)
+    td = G.random_type(rng, ts, o)
+    if t not in td.traits:
+        return None
+    # the same definition with every OTHER trait's attributes drawn afresh; t's (and its partners') stay
+    td2 = copy.deepcopy(td)
+    for v in td2.variants:
+        v.sem = {a: b for a, b in v.sem.items() if a.startswith("_")}
+        for f in v.fields:
+            f.sem = {a: b for a, b in f.sem.items() if a.startswith("_")}
+    td2.tsem = {a: b for a, b in td2.tsem.items() if a.startswith("_")}
+    G.decorate(rng_for(seed, PROP, "behave2", k), td2, o)
+    keys = set(SEM_KEYS[t])
+    for p in PARTNERS.get(t, []):
+        keys.update(SEM_KEYS[p])
+    own = {t} | set(PARTNERS.get(t, []))
+    for tt in own:
+        if tt in td.tsem:
+            td2.tsem[tt] = copy.deepcopy(td.tsem[tt])
+        else:
+            td2.tsem.pop(tt, None)
+    for v, v2 in zip(td.variants, td2.variants):
+        for key in keys | own:
+            if key in v.sem:
+                v2.sem[key] = copy.deepcopy(v.sem[key])
+            else:
+                v2.sem.pop(key, None)
+        for f, f2 in zip(v.fields, v2.fields):
+            for key in keys:
+                if key in f.sem:
+                    f2.sem[key] = copy.deepcopy(f.sem[key])
+                else:
+                    f2.sem.pop(key, None)
+    vals = S.values(td, 10, rng)
+    mods = []
+    for name, d, sp in (("a", td, "b1"), ("b", td2, "b2")):
+        mods.append("pub mod %s {\n%s%s%s%s}\n" % (name, S.render(d, rng_for(seed, PROP, sp, k), extras=False), "".join(d.extra_items),
+                                                  S.emit_mk(d, vals), S.emit_fp(d)))
+    bound, body = TRANSCRIPT[t]
+    glue = ("".join(mods) + "pub fn transcript<X>(mk: &dyn Fn(usize, u8) -> X, n: usize) -> String where %s {\n"
+            "    let mut s = String::new();\n    %s\n    s\n}\n" % (bound, body))
+    inst = td.inst()
+    drive = ("        %sbegin();\n        let ta = transcript::<a::%s>(&a::mk, %d);\n        let tb = transcript::<b::%s>(&b::mk, %d);\n"
+             "        let _ = %stake();\n        %sbegin();\n"
+             "        %sobs(\"i%d\", \"indep\", %d, -1, &format!(\"{}\\t{}\\t{}\", (ta == tb) as u8, %shex(&ta), %shex(&tb)));"
+             % (RT, inst, len(vals), inst, len(vals), RT, RT, RT, k, len(vals), RT, RT))
+    c = BH.Case("i%d" % k, td, S.render(td, rng_for(seed, PROP, "b1", k), extras=False), vals, glue=glue, drive=drive,
+                info={"trait": t, "other": S.render(td2, rng_for(seed, PROP, "b2", k), extras=False)})
+    c.module = lambda c=c: H.module(c.cid, c.glue + "pub fn run() {\n    %sguarded(\"%s\", || {\n%s\n    });\n}\n" % (RT, c.cid, c.drive))
+    return c
+
+
+def judge_behave(chk, c, obs, dropped):
+    t = c.info["trait"]
+    if c.cid in dropped:
+        chk.inconc("does-not-compile (see C01)")
+        log("C15: behavioural case dropped: %s\n%s\n--- other configuration:\n%s"
+            % (dropped[c.cid][0].get("rendered") or dropped[c.cid][0]["message"], c.text, c.info["other"]))
+        return
+    o = obs.get(c.cid)
+    if o is None or not o.began or not o.recs:
+        if o is not None and o.panic is not None:
+            chk.violation("panic|" + o.panic[:60], "%s panicked: %s\n%s" % (t, o.panic, c.text), {"case.rs": c.module()})
+            return
+        chk.inconc("not-run")
+        return
+    op, n, j, res, ev = o.recs[0]
+    chk.evaluations += 1
+    if res[0] != "1":
+        chk.violation("behaviour-depends-on-others|%s" % t,
+                      "the impl of %s behaves differently when only the attributes of OTHER traits change\n--- configuration A:\n%s\n"
+                      "--- configuration B:\n%s\ntranscript A: %s\ntranscript B: %s"
+                      % (t, c.text, c.info["other"], H.unhex(res[1])[:600], H.unhex(res[2])[:600]), {"case.rs": c.module()})
+        return
+    chk.held(digest(c.text + "|" + c.info["other"] + "|" + t), True, n)
+    chk.count("behave/" + t)
+    chk.sample({"trait": t, "configuration_a": c.text, "configuration_b": c.info["other"], "values": n}, limit=3)
+
+
 def main(tier, seed, scale=1.0):
     chk = Check(PROP, tier, seed)
     n = int((3000 if tier == "quick" else 60000) * scale)
@@ -125,4 +225,10 @@ def main(tier, seed, scale=1.0):
             chk.count(t)
             if len(foreign) >= 2:
                 chk.sample({"trait": t, "full": full, "reduced": part, "items_for_trait": sum(ia.values())}, limit=3)
+    nb = int((720 if tier == "quick" else 12000) * scale)
+    for k0 in range(0, nb, 480):
+        bc = [c for c in (behave_case(seed, k) for k in range(k0, min(nb, k0 + 480))) if c is not None]
+        obs, dropped, crashed, _, _ = BH.execute("c15b", bc)
+        for c in bc:
+            judge_behave(chk, c, obs, dropped)
     return chk.finish()
